@@ -433,6 +433,7 @@ def run(ctx):
     n = ctx.scale(400, 6000, 1200)
     ccases, creqs, cimpls = [], [], []
     hcases, hreqs, himpls = [], [], []
+    fcases, freqs, fimpls = [], [], []
     icases, ireqs, iimpls = [], [], []
     for i in range(n):
         if ctx.time_left() < 30:
@@ -539,6 +540,20 @@ def run(ctx):
                 hreqs.append(hreq)
                 himpls.append(himpl)
                 hcases.append(dict(case, heap_op=hdesc))
+        # heap-level fetch (Phil/HeapFetch2.lean, fetchH): the sharing structure of `master.fetch(sources=…)` on FRESH
+        # parses of the same texts — which nodes reachable from the result are old objects, the parent links of the new
+        # ones, and which old objects had `tmp = True` written — vs the model's; variable-free sources only (the model
+        # answers `unsupported` otherwise); every 5th master has nested `.multiple` scopes
+        if f is None and ctx.mode != "impl-only":
+            fsrcs = srcs if i % 2 == 0 else []
+            freq, fimpl, ffail = _heap.fetch_case(mt, fsrcs, _fetch.fetch_req(mt, fsrcs))
+            if ffail:
+                f = ffail
+            else:
+                ctx.count("heap_fetch" + ("_nested_multiple" if i % 5 == 4 else ""))
+                freqs.append(freq)
+                fimpls.append(fimpl)
+                fcases.append(dict(case, heap_fetch_sources=fsrcs))
         cls = None
         if f is None:
             f = copies_faithful(m) or shallow_copies_faithful(m, ss)
@@ -552,6 +567,8 @@ def run(ctx):
         ctx.corr("fetch_after_history", ccases, creqs, cimpls)
     if hreqs:
         ctx.corr("heap_copy_graph", hcases, hreqs, himpls)
+    if freqs:
+        ctx.corr("heap_fetch_graph", fcases, freqs, fimpls)
     # process(arg=) is a function of (master text, home scope, argument) in the model: what an interpreter WITH a history
     # answered is compared with that one value
     if ireqs:
